@@ -5,9 +5,13 @@ tie: hand-written Lean model (Pyiga.Model.Multipatch / Slice, driver drv_c14) vs
      pyiga.assemble.Multipatch on the same join histories: exact diff of the canonicalised state
      after every call, of numdofs and of every patch_to_global_idx after finalize, of the
      accumulated system of assemble_system (integer patch matrices).
-     The implementation is compared with the *repaired* model (Cfg.repaired, the one `glue_spec`
-     is proved for); where it differs it must equal the literal model of the pinned source
-     (Cfg.asCoded) and the history must show the signature of a recorded defect.
+     The implementation is compared with the model of the code as it is now (Cfg.repaired: /repo
+     contains ddfa3af and 4c8c872; this is the model `glue_spec` is proved for).  Any disagreement
+     fails the stream obligation.  For the report it is classified: if the implementation equals a
+     model variant in which one of the two repairs is absent (Cfg.asCoded = the original source, kept
+     in Lean for the negation witness) on a history showing that defect's signature, the violation
+     carries the defect's key (`join meets two existing classes` / `patch without shared dofs`) —
+     a known-finding line only while that key is listed as open in known_findings.d/C14.json.
 theorems: Pyiga.Props.C14.*
 search (model-free): networkx connected components of the declared identification graph
      (faces enumerated with numpy reshape/take/flip, not with pyiga), partition / gap-free
@@ -493,6 +497,7 @@ def run(ctx):
     got_var = {v: ctx.model('drv_c14', ['hist %d %d ' % v + fmt_hist(H[k][1], H[k][2]) for k in dis]) for v in variants}
     unexplained = 0
     reported = {}
+    open_keys = set(ctx.known_keys())
     for pos, k in enumerate(dis):
         name, shapes, calls = H[k]
         gc = got_var[(0, 0)][pos]
@@ -501,12 +506,13 @@ def run(ctx):
         for v in matching[:1]:
             ctx.count('histories equal to model variant merge=%d unshared=%d only' % v)
         key = classify(shapes, calls, descr) if descr is not None else 'mp-corr'
-        explained = ((key == KEY_MERGE and any(v[0] == 0 for v in matching)) or
-                     (key == KEY_UNSHARED and any(v[1] == 0 for v in matching)))
-        if not explained:
-            # not an instance of a recorded defect of the pinned source
-            unexplained += 1
+        recognised = ((key == KEY_MERGE and any(v[0] == 0 for v in matching)) or
+                      (key == KEY_UNSHARED and any(v[1] == 0 for v in matching)))
+        if not recognised:
             key = 'mp-corr' if descr is None else 'mp-oracle'
+        if key not in open_keys:
+            # (a recognised defect that is listed as open is reported as KNOWN-FINDING and does not fail the stream)
+            unexplained += 1
         reported[key] = reported.get(key, 0) + 1
         if reported[key] <= 3:
             ctx.violation(key, ('property fails on the implementation: ' + descr) if descr else 'model and implementation disagree (property holds on the implementation for this history)',
@@ -515,7 +521,7 @@ def run(ctx):
                            'oracle': descr, 'stream': 'mp (drv_c14)',
                            'replay': 'Multipatch([(kvs_p, None)…]); join_boundaries(p1,(ax1,s1),p2,(ax2,s2),flip) per call; finalize(); numdofs / patch_to_global_idx'},
                           descr is not None)
-    ctx.obligation('correspondence stream mp: %d histories; implementation == repaired model, or == a model variant without one of the repairs on a history with that recorded-defect signature' % len(H),
+    ctx.obligation('correspondence stream mp: %d histories; implementation == model of the current code (repairs ddfa3af, 4c8c872 included)' % len(H),
                    unexplained == 0, '%d unexplained disagreements; disagreements by key: %s' % (unexplained, reported))
     ctx.extra['requests'] = len(req) + len(dis)
 
